@@ -8,6 +8,7 @@ import (
 	"net"
 	"net/http"
 	"runtime"
+	"runtime/debug"
 	"strings"
 	"sync"
 	"testing"
@@ -436,9 +437,18 @@ func check(tt *testing.T, p Plan) (pbt.Info, error) {
 	// epilogue: a burst of concurrent compressed calls of substantial size on
 	// the shared pools
 	{
+		// (again right before the burst, with the collector paused: sync.Pool
+		// contents do not survive garbage collections, and the plan allocates a lot)
+		oldGC := debug.SetGCPercent(-1)
+		for i, send := range []string{"gzip", "deflate", "gzip", "deflate"} {
+			c := CallSpec{ID: 800101 + i, Protocol: prog.Protocols[i%3], Codec: "proto", Kind: prog.Unary, Send: send, NMsgs: 1, Bomb: true}
+			if err := verify(runCall(ctx, client(c), c), "second prologue"); err != nil {
+				return info, err
+			}
+		}
 		var wg sync.WaitGroup
 		errs := make(chan error, 64)
-		for w := 0; w < 8; w++ {
+		for w := 0; w < 16; w++ {
 			wg.Add(1)
 			go func(w int) {
 				defer wg.Done()
@@ -454,6 +464,7 @@ func check(tt *testing.T, p Plan) (pbt.Info, error) {
 			}(w)
 		}
 		wg.Wait()
+		debug.SetGCPercent(oldGC)
 		close(errs)
 		for err := range errs {
 			return info, err
@@ -508,7 +519,7 @@ func gen(transport string, maxG, maxK int) func(t *rapid.T) Plan {
 	}
 }
 
-const rule = "plans of G goroutines × K calls with pairwise-distinct, self-describing payloads (every number and text derives from the call id) of mixed protocol, codec, send-compression (none/gzip/deflate/stateful toy), RPC kind, message count and size (0 B..70 KB), all through ONE handler set and ONE shared client per configuration; bidi calls use separate sender and receiver goroutines; some calls (and a sequential prologue) carry a compressed request that decompresses beyond the handlers' read limit (must fail alone); a burst of 8×4 concurrent 60 KB compressed calls follows the plan; built with -race and the buffer-poisoning hook. Oracle: each call's result equals what the same call yields alone (handlers are pure functions of the request), every retained value is re-verified after all calls finished and the pools were churned, and the race detector must stay silent. Non-trivial = calls overlapped in time (in-flight counter ≥ 2) and at least two compression/size classes"
+const rule = "plans of G goroutines × K calls with pairwise-distinct, self-describing payloads (every number and text derives from the call id) of mixed protocol, codec, send-compression (none/gzip/deflate/stateful toy), RPC kind, message count and size (0 B..70 KB), all through ONE handler set and ONE shared client per configuration; bidi calls use separate sender and receiver goroutines; some calls (and a sequential prologue) carry a compressed request that decompresses beyond the handlers' read limit (must fail alone); a burst of 16×4 concurrent 60 KB compressed calls follows the plan (again preceded by over-limit requests, collector paused); built with -race and the buffer-poisoning hook. Oracle: each call's result equals what the same call yields alone (handlers are pure functions of the request), every retained value is re-verified after all calls finished and the pools were churned, and the race detector must stay silent. Non-trivial = calls overlapped in time (in-flight counter ≥ 2) and at least two compression/size classes"
 
 var specMem = pbt.Spec[Plan]{Prop: "C13", Name: "plans-mem", Gen: gen("mem", 8, 6), Check: check, Rule: rule}
 var specSock = pbt.Spec[Plan]{Prop: "C13", Name: "plans-sock", Gen: gen("sock", 16, 8), Check: check, Rule: "as [plans-mem] over real loopback TCP sockets with net/http's HTTP/2 (h2c) server and transport: real parallel I/O"}
